@@ -24,7 +24,7 @@ def _is_hexstr(s):
         return False
 
 
-def build_found_rule(rng, decoded, features=None, sections=None, binary=False):
+def build_found_rule(rng, decoded, features=None, sections=None, binary=False, macro_dir="macros"):
     """(rule_doc, macro_files{rel: doc}, macros_arg[list rel], info) for a window of `decoded`.
 
     `features` is the swarm mask: a set of names out of FEATURES; None = draw one."""
@@ -195,7 +195,7 @@ def build_found_rule(rng, decoded, features=None, sections=None, binary=False):
                 if not any(split):
                     split[0], keep = keep, []
             for fi, ms in enumerate(split):
-                rel = f"macros/m{fi}.yaml"
+                rel = f"{macro_dir}/m{fi}.yaml"
                 # an unrelated definition so that the file is never empty of macros
                 ms = ms + [{"name": f"@unused{fi}", "pattern": "nop"}]
                 macro_files[rel] = {"macros": ms}
